@@ -1,9 +1,254 @@
 /-
 C14, property theorems about the TRANSLATED cryptobyte-based decoders (part SH; see DESIGN.md 12.4).
 Same namespace as Props/C14.lean; listed in checks/C14.json under extra_props_files.
+
+`serverHelloMsg.unmarshal` of both stacks, as go2lean re-reads it from /repo on every run
+(`Gotlcp.Src.tlcp.codec` / `Gotlcp.Src.dtlcp.codec`; `cryptobyte.String` = the stub `cbString`):
+for EVERY receiver value and EVERY byte string the translated function
+
+  * returns `(m', true)` exactly when the hand model (`Model.Codec.unmarshalServerHello codesT` /
+    `Model.CodecDtlcp.decServerHello codesD`, instantiated with the regenerated facts) accepts the same bytes,
+    and then the nine body fields of `m'` (dtlcp: and the three header fields) are the model's;
+  * returns `(m', false)` exactly when the model refuses;
+
+so the theorems C14_total / strict / roundtrip / reencode _serverHello_ of Props/C14.lean, stated about
+the model, hold of the source text (`C14_src_strict_…`, `C14_src_roundtrip_…`, `C14_src_reencode_…` below).
+How: Tie/CodecSH.lean, Tie/CodecSHDtlcp.lean (translated text = closed form `decBody`, shared by both
+stacks), Tie/CodecSHModel.lean (closed form = model, reads one by one, extension loop round by round).
 -/
-import Gotlcp.Tie.CbString
+import Gotlcp.Tie.CodecSHModel
+import Gotlcp.Lemmas.CodecHelloStrict
+import Gotlcp.Lemmas.CodecHelloCanon
 
 namespace Gotlcp.Props.C14
+open Gotlcp Gotlcp.Wire Gotlcp.Wire.Msg Gotlcp.Model.Codec
+open Gotlcp.Tie.CodecSH Gotlcp.Tie.CodecSHModel
+open Gotlcp.Tie.UnmarshalTlcpCodec (abs)
+
+/-- the literals in the translated text (message type 2; extension codes 5, 16, 0; 32 random bytes) are
+the regenerated facts the model is instantiated with, both decoders are in the regenerated list of
+guarded decoders, and everything the translator was asked for was translated -/
+theorem C14_src_codes_serverHello :
+    Src.untranslated = [] ∧
+    u8 codesT.tServerHello = UInt8.ofBitVec 2#8 ∧ codesT.complete.contains codesT.tServerHello = true ∧
+    u8 codesD.tServerHello = UInt8.ofBitVec 2#8 ∧ codesD.complete.contains codesD.tServerHello = true ∧
+    codesT.extStatusRequest = 5 ∧ codesT.extALPN = 16 ∧ codesT.extServerName = 0 ∧ codesT.randomLen = 32 ∧
+    codesD.extStatusRequest = 5 ∧ codesD.extALPN = 16 ∧ codesD.extServerName = 0 ∧ codesD.randomLen = 32 := by
+  decide
+
+/-! ## tlcp -/
+
+/-- **`serverHelloMsg.unmarshal` (tlcp)**: accepted with the model's fields, or refused like the model -/
+theorem C14_src_serverHello_tlcp (m : Src.tlcp.codec.serverHelloMsg) (data : List (BitVec 8)) :
+    Tie.UnmarshalTlcpCodec.Agree viewT (Src.tlcp.codec.serverHelloMsg.unmarshal m data)
+      (unmarshalServerHello codesT (abs data)) :=
+  tie_codec_serverHello m data
+
+/-- the receiver afterwards: untouched if the header guard refused, else `raw = data` -/
+theorem C14_src_serverHello_receiver_tlcp (m m' : Src.tlcp.codec.serverHelloMsg) (data : List (BitVec 8)) (b : Bool)
+    (h : Src.tlcp.codec.serverHelloMsg.unmarshal m data = .ok (m', b)) :
+    (m' = m ∧ b = false ∧ Tie.UnmarshalTlcp.complete data 2#8 = false) ∨
+    (m'.raw = data ∧ Tie.UnmarshalTlcp.complete data 2#8 = true) :=
+  serverHello_rawT m m' data b h
+
+/-- what the TRANSLATED decoder accepts, the model accepts, with these fields -/
+theorem C14_src_accept_is_model_accept_serverHello_tlcp (m m' : Src.tlcp.codec.serverHelloMsg)
+    (data : List (BitVec 8)) (h : Src.tlcp.codec.serverHelloMsg.unmarshal m data = .ok (m', true)) :
+    unmarshalServerHello codesT (abs data) = .ok (viewT m') := by
+  have ha := C14_src_serverHello_tlcp m data
+  cases ho : unmarshalServerHello codesT (abs data) with
+  | ok c =>
+    rw [ho] at ha
+    obtain ⟨m2, h2, hv⟩ := ha
+    rw [h] at h2
+    cases h2
+    rw [← hv]
+  | reject =>
+    rw [ho] at ha
+    obtain ⟨m2, h2⟩ := ha
+    rw [h] at h2
+    cases h2
+  | panic => rw [ho] at ha; exact ha.elim
+
+/-- what the TRANSLATED decoder refuses, the model refuses -/
+theorem C14_src_refuse_is_model_refuse_serverHello_tlcp (m m' : Src.tlcp.codec.serverHelloMsg)
+    (data : List (BitVec 8)) (h : Src.tlcp.codec.serverHelloMsg.unmarshal m data = .ok (m', false)) :
+    unmarshalServerHello codesT (abs data) = .reject := by
+  have ha := C14_src_serverHello_tlcp m data
+  cases ho : unmarshalServerHello codesT (abs data) with
+  | ok c =>
+    rw [ho] at ha
+    obtain ⟨m2, h2, hv⟩ := ha
+    rw [h] at h2
+    cases h2
+  | reject => rfl
+  | panic => rw [ho] at ha; exact ha.elim
+
+/-- strictness (`C14_strict_serverHello_tlcp`) for the source text: whatever it accepts has the ServerHello
+shape of the spec — header length exact, every length prefix exact, every extension body consumed -/
+theorem C14_src_strict_serverHello_tlcp (m m' : Src.tlcp.codec.serverHelloMsg) (data : List (BitVec 8))
+    (h : Src.tlcp.codec.serverHelloMsg.unmarshal m data = .ok (m', true)) :
+    Spec.Codec.shape .tlcp .serverHello (abs data) = true :=
+  Lemmas.CodecHelloStrict.strict_serverHello_tlcp codesT helloCodesT codes_factsT.2
+    (C14_src_accept_is_model_accept_serverHello_tlcp m m' data h)
+
+/-- round trip (`C14_roundtrip_serverHello_tlcp`) for the source text: the model encoding of every in-range
+ServerHello is decoded by the translated decoder to the same fields, whatever the receiver held -/
+theorem C14_src_roundtrip_serverHello_tlcp (ms : ServerHello) (hw : Spec.Codec.wfServerHello ms = true) :
+    ∃ b, encServerHello codesT ms = some b ∧
+      ∀ (m : Src.tlcp.codec.serverHelloMsg) (data : List (BitVec 8)), abs data = b →
+        ∃ m', Src.tlcp.codec.serverHelloMsg.unmarshal m data = .ok (m', true) ∧ viewT m' = ms ∧ m'.raw = data := by
+  obtain ⟨b, he, hd⟩ := Lemmas.CodecHello.rt_serverHello_tlcp codesT helloCodesT ms hw
+  refine ⟨b, he, ?_⟩
+  intro m data hdata
+  have ha := C14_src_serverHello_tlcp m data
+  rw [hdata, hd] at ha
+  obtain ⟨m', h1, h2⟩ := ha
+  refine ⟨m', h1, h2, ?_⟩
+  rcases C14_src_serverHello_receiver_tlcp m m' data true h1 with ⟨_, hb, _⟩ | ⟨hr, _⟩
+  · cases hb
+  · exact hr
+
+/-- re-encoding (`C14_reencode_serverHello_tlcp`) for the source text: what the spec's strict decoder reads
+as `ms`, the translated decoder accepts with exactly the fields `ms` -/
+theorem C14_src_reencode_serverHello_tlcp (m : Src.tlcp.codec.serverHelloMsg) (data : List (BitVec 8)) (h : DHdr)
+    (ms : ServerHello) (hs : Spec.Codec.strictServerHello .tlcp (abs data) = some (h, ms)) :
+    ∃ m', Src.tlcp.codec.serverHelloMsg.unmarshal m data = .ok (m', true) ∧ viewT m' = ms ∧
+      encServerHello codesT ms = some (abs data) := by
+  obtain ⟨h1, h2, _⟩ := Lemmas.CodecHelloCanon.canon_serverHello_tlcp codesT helloCodesT rfl hs
+  have ha := C14_src_serverHello_tlcp m data
+  rw [h2] at ha
+  obtain ⟨m', e1, e2⟩ := ha
+  exact ⟨m', e1, e2, h1⟩
+
+/-! ## dtlcp -/
+
+/-- **`serverHelloMsg.unmarshal` (dtlcp)**: accepted with the model's header fields and body fields, or
+refused like the model -/
+theorem C14_src_serverHello_dtlcp (m : Src.dtlcp.codec.serverHelloMsg) (data : List (BitVec 8)) :
+    Tie.UnmarshalDtlcpCodec.Agree viewD (Src.dtlcp.codec.serverHelloMsg.unmarshal m data)
+      (Model.CodecDtlcp.decServerHello codesD (Tie.UnmarshalDtlcpCodec.abs data)) :=
+  tie_codec_serverHelloD m data
+
+/-- the receiver afterwards: untouched if the header guard refused, else `raw = data` and the three header
+fields are those of `data` -/
+theorem C14_src_serverHello_receiver_dtlcp (m m' : Src.dtlcp.codec.serverHelloMsg) (data : List (BitVec 8)) (b : Bool)
+    (h : Src.dtlcp.codec.serverHelloMsg.unmarshal m data = .ok (m', b)) :
+    (m' = m ∧ b = false ∧ Tie.UnmarshalDtlcpCodec.completeD data 2#8 = false) ∨
+    (m'.raw = data ∧ m'.messageSeq = Tie.UnmarshalDtlcp.u16At data 4 ∧
+      m'.fragmentOffset = Tie.UnmarshalDtlcp.u24At data 6 ∧ m'.fragmentLength = Tie.UnmarshalDtlcp.u24At data 9 ∧
+      Tie.UnmarshalDtlcpCodec.completeD data 2#8 = true) :=
+  serverHello_rawD m m' data b h
+
+theorem C14_src_accept_is_model_accept_serverHello_dtlcp (m m' : Src.dtlcp.codec.serverHelloMsg)
+    (data : List (BitVec 8)) (h : Src.dtlcp.codec.serverHelloMsg.unmarshal m data = .ok (m', true)) :
+    Model.CodecDtlcp.decServerHello codesD (Tie.UnmarshalDtlcpCodec.abs data) = .ok (viewD m') := by
+  have ha := C14_src_serverHello_dtlcp m data
+  cases ho : Model.CodecDtlcp.decServerHello codesD (Tie.UnmarshalDtlcpCodec.abs data) with
+  | ok c =>
+    rw [ho] at ha
+    obtain ⟨m2, h2, hv⟩ := ha
+    rw [h] at h2
+    cases h2
+    rw [← hv]
+  | reject =>
+    rw [ho] at ha
+    obtain ⟨m2, h2⟩ := ha
+    rw [h] at h2
+    cases h2
+  | panic => rw [ho] at ha; exact ha.elim
+
+theorem C14_src_refuse_is_model_refuse_serverHello_dtlcp (m m' : Src.dtlcp.codec.serverHelloMsg)
+    (data : List (BitVec 8)) (h : Src.dtlcp.codec.serverHelloMsg.unmarshal m data = .ok (m', false)) :
+    Model.CodecDtlcp.decServerHello codesD (Tie.UnmarshalDtlcpCodec.abs data) = .reject := by
+  have ha := C14_src_serverHello_dtlcp m data
+  cases ho : Model.CodecDtlcp.decServerHello codesD (Tie.UnmarshalDtlcpCodec.abs data) with
+  | ok c =>
+    rw [ho] at ha
+    obtain ⟨m2, h2, hv⟩ := ha
+    rw [h] at h2
+    cases h2
+  | reject => rfl
+  | panic => rw [ho] at ha; exact ha.elim
+
+theorem readyD_serverHello : Lemmas.CodecDtlcp.Ready codesD codesD.tServerHello := ⟨rfl, codes_factsD.2⟩
+
+/-- strictness (`C14_strict_serverHello_dtlcp`) for the source text -/
+theorem C14_src_strict_serverHello_dtlcp (m m' : Src.dtlcp.codec.serverHelloMsg) (data : List (BitVec 8))
+    (h : Src.dtlcp.codec.serverHelloMsg.unmarshal m data = .ok (m', true)) :
+    Spec.Codec.shape .dtlcp .serverHello (Tie.UnmarshalDtlcpCodec.abs data) = true :=
+  Lemmas.CodecHelloStrict.strict_serverHello_dtlcp codesD helloCodesD readyD_serverHello
+    (C14_src_accept_is_model_accept_serverHello_dtlcp m m' data h)
+
+/-- round trip (`C14_roundtrip_serverHello_dtlcp`) for the source text -/
+theorem C14_src_roundtrip_serverHello_dtlcp (h : DHdr) (ms : ServerHello) (hw : Spec.Codec.wfServerHello ms = true)
+    (hh : ∀ body, encServerHelloBody codesD ms = some body → Spec.Codec.wfDHdr h body.length = true) :
+    ∃ b body, encServerHelloBody codesD ms = some body ∧ Model.CodecDtlcp.encServerHello codesD h ms = some b ∧
+      ∀ (m : Src.dtlcp.codec.serverHelloMsg) (data : List (BitVec 8)), Tie.UnmarshalDtlcpCodec.abs data = b →
+        ∃ m', Src.dtlcp.codec.serverHelloMsg.unmarshal m data = .ok (m', true) ∧
+          viewD m' = (⟨h.seq, 0, body.length⟩, ms) ∧ m'.raw = data := by
+  obtain ⟨b, body, h1, h2, h3⟩ :=
+    Lemmas.CodecHello.rt_serverHello_dtlcp codesD helloCodesD readyD_serverHello h ms hw hh
+  refine ⟨b, body, h1, h2, ?_⟩
+  intro m data hdata
+  have ha := C14_src_serverHello_dtlcp m data
+  rw [hdata, h3] at ha
+  obtain ⟨m', e1, e2⟩ := ha
+  refine ⟨m', e1, e2, ?_⟩
+  rcases C14_src_serverHello_receiver_dtlcp m m' data true e1 with ⟨_, hb, _⟩ | ⟨hr, _⟩
+  · cases hb
+  · exact hr
+
+/-- re-encoding (`C14_reencode_serverHello_dtlcp`) for the source text -/
+theorem C14_src_reencode_serverHello_dtlcp (m : Src.dtlcp.codec.serverHelloMsg) (data : List (BitVec 8)) (h : DHdr)
+    (ms : ServerHello) (hs : Spec.Codec.strictServerHello .dtlcp (Tie.UnmarshalDtlcpCodec.abs data) = some (h, ms)) :
+    ∃ m', Src.dtlcp.codec.serverHelloMsg.unmarshal m data = .ok (m', true) ∧ viewD m' = (h, ms) ∧
+      Model.CodecDtlcp.encServerHello codesD h ms = some (Tie.UnmarshalDtlcpCodec.abs data) := by
+  obtain ⟨h1, h2, _⟩ :=
+    Lemmas.CodecHelloCanon.canon_serverHello_dtlcp codesD helloCodesD readyD_serverHello rfl hs
+  have ha := C14_src_serverHello_dtlcp m data
+  rw [h2] at ha
+  obtain ⟨m', e1, e2⟩ := ha
+  exact ⟨m', e1, e2, h1⟩
+
+/-! ## non-vacuity: a ServerHello with status_request, ALPN, server_name and an unknown extension, through the
+translated decoder and through the model; and a refused one (server_name with a body) -/
+
+def shFullT : List (BitVec 8) :=
+  [2, 0, 0, 69, 1, 1] ++ List.replicate 32 7 ++ [0, 0xe0, 0x13, 0, 0, 29,
+    0, 5, 0, 7, 1, 0, 0, 3, 0xaa, 0xbb, 0xcc, 0, 16, 0, 5, 0, 3, 2, 0x68, 0x32, 0, 0, 0, 0, 0xff, 1, 0, 1, 9]
+
+def shFullD : List (BitVec 8) :=
+  [2, 0, 0, 69, 0, 1, 0, 0, 0, 0, 0, 69, 1, 1] ++ List.replicate 32 7 ++ [0, 0xe0, 0x13, 0, 0, 29,
+    0, 5, 0, 7, 1, 0, 0, 3, 0xaa, 0xbb, 0xcc, 0, 16, 0, 5, 0, 3, 2, 0x68, 0x32, 0, 0, 0, 0, 0xff, 1, 0, 1, 9]
+
+def shBadT : List (BitVec 8) :=
+  [2, 0, 0, 45, 1, 1] ++ List.replicate 32 7 ++ [0, 0xe0, 0x13, 0, 0, 5, 0, 0, 0, 1, 9]
+
+/-- accepted with exactly this model value -/
+def acceptsT (x : Except String (Src.tlcp.codec.serverHelloMsg × Bool)) (v : ServerHello) : Bool :=
+  match x with
+  | .ok (m, true) => decide (viewT m = v)
+  | _ => false
+
+def acceptsD (x : Except String (Src.dtlcp.codec.serverHelloMsg × Bool)) (v : DHdr × ServerHello) : Bool :=
+  match x with
+  | .ok (m, true) => decide (viewD m = v)
+  | _ => false
+
+def refuses {M : Type} (x : Except String (M × Bool)) : Bool :=
+  match x with
+  | .ok (_, false) => true
+  | _ => false
+
+example : acceptsT (Src.tlcp.codec.serverHelloMsg.unmarshal {} shFullT)
+    ⟨(1, 1), List.replicate 32 7, [], (0xe0, 0x13), 0, true, [0xaa, 0xbb, 0xcc], [0x68, 0x32], true⟩ = true := by decide
+example : unmarshalServerHello codesT (abs shFullT) =
+    .ok ⟨(1, 1), List.replicate 32 7, [], (0xe0, 0x13), 0, true, [0xaa, 0xbb, 0xcc], [0x68, 0x32], true⟩ := by decide
+example : acceptsD (Src.dtlcp.codec.serverHelloMsg.unmarshal {} shFullD)
+    (⟨(0, 1), 0, 69⟩, ⟨(1, 1), List.replicate 32 7, [], (0xe0, 0x13), 0, true, [0xaa, 0xbb, 0xcc], [0x68, 0x32], true⟩)
+    = true := by decide
+example : refuses (Src.tlcp.codec.serverHelloMsg.unmarshal {} shBadT) = true := by decide
+example : unmarshalServerHello codesT (abs shBadT) = .reject := by decide
 
 end Gotlcp.Props.C14
